@@ -613,7 +613,7 @@ def c16_colocate(R):
 
 @rule(
     "C16.track",
-    props=("C16",),
+    props=("C16", "C09"),
     floor=4,
     family="DEP",
     desc="under tracking, BackendZ3.add registers every original AST under the converted term, _add uses "
@@ -658,6 +658,28 @@ def c16_track(R):
             "the registered AST is the original constraint paired with its converted term",
             "the AST registered for a tracked term is not the original constraint of that term",
         )
+        # ... position by position: the second sequence is the conversion of the first, element for element (not a
+        # filtered or reordered version of it)
+        if ok:
+            radd = util.resolve_locals(add)
+            zips = [c for c in _calls(radd) if dotted(c.func) == "zip" and len(c.args) >= 2]
+            aligned = False
+            for z in zips:
+                first, second = z.args[0], z.args[1]
+                if isinstance(second, ast.Call) and isinstance(second.func, ast.Attribute) and second.func.attr == "convert_list" and len(second.args) == 1 and ast.unparse(second.args[0]) == ast.unparse(first):
+                    aligned = True
+                if isinstance(second, (ast.ListComp, ast.GeneratorExp)) and len(second.generators) == 1 and not second.generators[0].ifs and ast.unparse(second.generators[0].iter) == ast.unparse(first):
+                    aligned = True
+            R.check(
+                aligned,
+                m,
+                reg,
+                "constraints and converted terms are paired position by position",
+                "BackendZ3.add pairs the constraints with a sequence that is not their element-wise conversion (filtered, reordered): "
+                "after a dropped literal `true` every term is registered under the AST of the preceding constraint, and a later "
+                "round trip of `x <=u y` came back as `true`",
+                construct="BackendZ3.add: zip(constraints, converted) aligned",
+            )
     _add = ms["_add"]
     aat = [c for c in _calls(_add) if isinstance(c.func, ast.Attribute) and c.func.attr == "assert_and_track"]
     R.check(
